@@ -465,6 +465,11 @@ class CursorAwareWindow(BaseWindow, ContextManager["CursorAwareWindow"]):
         if height != self._last_rendered_height or width != self._last_rendered_width:
             self.on_terminal_size_change(height, width)
 
+        if self.top_usable_row > height:
+            # cursor movement accounting can put the window's first row below
+            # the screen: it starts on the first row below the screen at most
+            self.top_usable_row = height
+
         current_lines_by_row: Dict[int, Optional[FmtStr]] = {}
         rows_for_use = list(range(self.top_usable_row, height))
 
